@@ -31,13 +31,13 @@ EXTRAS = ["none", "state05", "state04", "dup", "b5notif"]
 
 def bounds(tier):
     return {"vectors": "all single-field sweeps x 4 bases + pairwise design", "protocols": [2, 3],
-            "deviation_bound_bases": 2, "deviation_bound_all_vectors": 1 if tier == "thorough" else 0,
+            "deviation_bound_bases": 2, "deviation_bound_all_vectors": 1,
             "cut_offsets": "every byte offset" if tier == "thorough" else "every byte offset (bound 1), every 6th (bound 2)",
             "credentials": len(al.credentials()), "device_ids": len(al.device_ids())}
 
 
 def vectors(tier):
-    v = dz.single_field_sweeps(dz.BASES if tier == "thorough" else dz.BASES[:2])
+    v = dz.single_field_sweeps(dz.BASES if tier == "thorough" else dz.BASES[:1])
     v += dz.pairwise(dz.field_domains(rep=True))
     seen, out = set(), []
     for i, c in enumerate(v):
@@ -55,7 +55,7 @@ def shards(tier):
     n = 24
     for i in range(n):
         out.append(("vectors", i, n))
-    for b in range(len(dz.BASES)):
+    for b in range(len(dz.BASES) if tier == "thorough" else 2):
         for version in (2, 3):
             for part in range(6):
                 out.append(("deep", b, version, part, 6))
@@ -136,11 +136,18 @@ def execute(vec, version, ch: Chooser, cred=3, dev_id=0x0000_A1B2_C3D4_E5F6, cut
     rig = Rig(version, ac=model, script=env.script, cred=cred, device_id=dev_id)
     a, b = rig.client(), rig.client()
 
+    # a first, different state is applied before the one under test: frames left over from that exchange
+    # (unsolicited / duplicated reports of the OLD state) are then still queued when the second command is sent
+    pre = dz.BASES[1] if any(vec[k] != dz.BASES[1][k] for k in dz.BASES[1]) and vec["temp"] != dz.BASES[1]["temp"] else dz.BASES[2]
+
     async def drive():
         await rig.connect(a)
-        dz.apply_to_client(a, vec)
+        dz.apply_to_client(a, pre)
         await a.apply()
         await asyncio.sleep(0.05)       # operations do not overlap with in-flight bytes of the previous one
+        dz.apply_to_client(a, vec)
+        await a.apply()
+        await asyncio.sleep(0.05)
         if a.display_on != vec["display"]:
             await a.toggle_display()
             await asyncio.sleep(0.05)
@@ -193,27 +200,23 @@ def run_vectors(st: Stats, tier, part, nparts):
         vec = vs[i]
         for version in (2, 3):
             # bound 0 for every vector; bound 1 with coarse cuts for every vector in thorough
-            def run(ch, vec=vec, version=version):
-                return execute(vec, version, ch, cut_step=16)
+            step = 16 if tier == "thorough" else 48
 
-            def on_exec(ch, res, vec=vec, version=version):
+            def run(ch, vec=vec, version=version, step=step):
+                return execute(vec, version, ch, cut_step=step)
+
+            def on_exec(ch, res, vec=vec, version=version, step=step):
                 obs, modes, rej = res
-                case = {"vector": vec, "version": version, "choices": ch.choices(), "cut_step": 16}
+                case = {"vector": vec, "version": version, "choices": ch.choices(), "cut_step": step}
                 if det.due():
-                    r2 = execute(vec, version, Chooser(ch.choices()), cut_step=16)
+                    r2 = execute(vec, version, Chooser(ch.choices()), cut_step=step)
                     det.check(obs, r2[0], case)
                 prob = judge(st, case, version, obs, modes, rej)
                 st.transitions += len(ch.trace)
                 st.state((i, version, tuple(ch.choices())))
                 st.ev((i, version, tuple(ch.choices())), "faithful" if not prob else "differs", True,
                       sample=None if len(st.samples) else {"vector": vec, "version": version, "choices": ch.choices()})
-            explore(run, 1 if tier == "thorough" else 0, on_exec)
-            if tier != "thorough":
-                # a fixed set of single deviations for every vector
-                for choices in ([1], [2], [0, 3], [0, 0, 1], [0, 0, 2], [4, 0, 2], [0, 0, 5], [3, 0, 0], [0, 0, 0, 0, 0, 2]):
-                    ch = Chooser(choices)
-                    res = execute(vec, version, ch, cut_step=16)
-                    on_exec(ch, res)
+            explore(run, 1, on_exec)
     st.reruns += det.reruns
 
 
@@ -222,7 +225,7 @@ def run_deep(st: Stats, tier, base_i, version, part, nparts):
     det = Determinism(first=2, every=997)
     counter = {"n": 0}
 
-    for bound, step in ((1, 1), (2, 6 if tier != "thorough" else 3)):
+    for bound, step in ((1, 1), (2, 8 if tier != "thorough" else 3)):
         def run(ch, step=step):
             return execute(vec, version, ch, cut_step=step)
 
